@@ -24,6 +24,12 @@ type DryRun struct {
 func NewDryRun(client client.Writer) *DryRun { return &DryRun{client: client} }
 
 func (p *DryRun) Check(ctx context.Context, _, obj client.Object) (violations []Violation, err error) {
+	if isTeardownContext(ctx) {
+		// Whether the API server would accept the desired state of an object
+		// is irrelevant when this object is just going to be deleted.
+		return nil, nil
+	}
+
 	defer addPositionToViolations(ctx, obj, &violations)
 
 	objectPatch, mErr := json.Marshal(obj)
